@@ -11,6 +11,7 @@ R-ENTRY      the parsing entry points leave the scope stack as they found it (al
 """
 from ..front import AnalysisBroken
 from ..facts import walk, calls, short
+from ..inline import expanded_fn, sites_with_conditions, strip
 from ..stackmachine import Lin
 from ..callgraph import is_te
 from . import stack as S
@@ -63,17 +64,44 @@ def resolve_rules(chk, F):
                   "map the name to the index of the symbol just appended (the latest declaration wins inside a frame); "
                   "binder callbacks add their symbol to the frame they have just pushed")
     rs = F.fn("UTAP::frame_t::resolve")
-    # shape: idx = get_index_of(name); if (!idx) return parent...; symbol = symbols[*idx]; return true
-    own_first = False
-    for n in walk(rs["body"]):
-        if n.get("k") == "if":
-            c = short(n["c"])
-            thn = short(n["then"]) if n["then"].get("k") != "block" else " ".join(short(x) for x in n["then"].get("s", []))
-            if "idx" in c or "get_index_of" in c or "find" in c:
-                parent_in_then = any(cc.get("name") in ("get_parent", "resolve") for cc in calls(n["then"]))
-                neg = c.strip().startswith("!") or "== " in c and "end" in c
-                if parent_in_then and neg:
-                    own_first = True
+    rsx = expanded_fn(rs, F, stop=("resolve", "get_parent"))
+    # the own lookup: a local bound to get_index_of(name) / mapping.find(name), or such a call used directly
+    LOOKUPS = ("get_index_of", "find", "count", "contains")
+    lookup_ids = set()
+    for n in walk(rsx["body"]):
+        if n.get("k") == "decl":
+            for v in n.get("vars", []):
+                if v.get("init") is not None and any(c.get("name") in LOOKUPS for c in calls(v["init"])):
+                    lookup_ids.add(v.get("id"))
+    if not lookup_ids and not any(c.get("name") in LOOKUPS for c in calls(rsx["body"])):
+        raise AnalysisBroken("frame_t::resolve: no lookup in the frame's own name map found")
+
+    def found_when_true(c):
+        """+1: c true means the name is in the own frame; -1: c true means it is not; 0: unrelated."""
+        c = strip(c)
+        if not isinstance(c, dict):
+            return 0
+        if c.get("k") == "un" and c.get("op") == "!":
+            return -found_when_true(c["e"])
+        mentions = any((x.get("k") == "ref" and x.get("id") in lookup_ids) or
+                       (x.get("k") == "call" and x.get("name") in LOOKUPS) for x in walk(c))
+        if not mentions:
+            return 0
+        op = c.get("op") if c.get("k") in ("bin", "call") else None
+        if op in ("==", "!="):
+            other = short(c)
+            if "end" in other or "nullopt" in other or "npos" in other:
+                return -1 if op == "==" else 1
+            return 0
+        if c.get("k") == "bin":
+            return 0
+        return 1        # the optional / count itself, has_value(), operator bool
+
+    def not_found_on(conds):
+        return any(found_when_true(c) * (1 if t else -1) == -1 for c, t in conds)
+    psites = sites_with_conditions(rsx["body"], lambda n: n.get("k") == "call" and n.get("name") == "resolve" and
+                                   "get_parent" in short(n.get("recv")))
+    own_first = bool(psites) and all(not_found_on(cs) for _, cs in psites)
     chk.ob(rid, "resolve|own-frame-first", own_first,
            "frame_t::resolve does not look up its own frame before delegating to the parent",
            "%s:%s" % (rs["file"], rs["line"]))
@@ -85,6 +113,7 @@ def resolve_rules(chk, F):
             if fn["params"] and "frame_t" in fn["params"][0]["ct"]:
                 continue
             ok = False
+            fn = expanded_fn(fn, F, stop=("add", "add_symbol"))      # `data->append(symbol)`
             for n in walk(fn["body"]):
                 if n.get("k") in ("bin", "call") and (n.get("op") == "="):
                     lhs = n.get("lhs") or n.get("recv")
@@ -100,7 +129,7 @@ def resolve_rules(chk, F):
     for q in ("UTAP::ExpressionBuilder::expr_forall_begin", "UTAP::ExpressionBuilder::expr_forall_dynamic_begin",
               "UTAP::ExpressionBuilder::expr_exists_dynamic_begin", "UTAP::ExpressionBuilder::expr_sum_dynamic_begin",
               "UTAP::ExpressionBuilder::expr_foreach_dynamic_begin"):
-        fn = F.fn(q)
+        fn = expanded_fn(F.fn(q), F, stop=("push_frame", "add_symbol"))     # a shared `dynamic_quantifier_begin`
         stmts = fn["body"].get("s", [])
         order = []
         for s in stmts:
